@@ -177,6 +177,11 @@ def build_and_check(R, nfuncs, nparams, local_counts, consts, names, label):
             if len(locals_) != total_locals:
                 problems.append("function %d: wrote %d locals, decoded %d" % (i, total_locals, len(locals_)))
                 break
+            want_types = [vt for vt, cnt in local_counts for _ in range(cnt)]
+            if list(locals_) != want_types:
+                k = [j for j, (a, b) in enumerate(zip(locals_, want_types)) if a != b][0]
+                problems.append("function %d: local %d declared %s, read back as %s" % (i, k, want_types[k], locals_[k]))
+                break
             got = [imm[0] for opc, imm in body if opc == 0x41]
             want = list(consts) + [consts[i % len(consts)] if consts else 0]
             if got != want:
@@ -334,6 +339,16 @@ def run_shard(tier, seed, shard, n, R):
         (130, 1, [("i32", 2)], [1, 2, 3], ["e%d" % i for i in range(130)]),
         (300, 0, [], [300, -300], ["é%d" % i for i in range(300)]),
         (1, 0, [("i32", 1)], list(range(-70, 70)) * 40, ["big"]),
+        # many declarations of locals in one body (their *number* is a count of its own): alternating types cannot be merged
+        (1, 1, [("i32", 1), ("f32", 1)] * 63 + [("i32", 1)], [5], ["l127"]),
+        (1, 1, [("i32", 1), ("f32", 1)] * 64, [5], ["l128"]),
+        (2, 0, [("f32", 2), ("i32", 1)] * 70, [7, -7], ["l140a", "l140b"]),
+        (1, 0, [("i32", 1), ("f32", 3)] * 150, [9], ["l300"]),
+        (1, 0, [("i32", 1)] * 130 + [("f32", 1)] * 130, [9], ["runs"]),
+        # the same export name given twice (not a valid module, but the writer's counts and sizes must still describe what
+        # it wrote: every entry it was given, or a count that matches)
+        (2, 0, [], [1], ["same", "same"]),
+        (4, 1, [("i32", 1)], [1, 2], ["p", "q", "p", "p"]),
     ]
     for i, (nf, np_, lc, cs, names) in enumerate(shapes):
         if i % n == shard:
@@ -345,6 +360,8 @@ def run_shard(tier, seed, shard, n, R):
     for _ in range(6 if tier == "quick" else 80):
         nf = rng.choice([1, 1, 2, 5, 127, 128, 129])
         lc = [(rng.choice(["i32", "f32"]), rng.choice([1, 2, 127, 128, 129, 1000, 16383, 16384])) for _ in range(rng.randint(0, 4))]
+        if rng.random() < 0.3:
+            lc = [(rng.choice(["i32", "f32"]), rng.choice([1, 1, 2, 3])) for _ in range(rng.choice([126, 127, 128, 129, 200, 260]))]
         cs = [rng.choice(signed_boundary_values()) for _ in range(rng.randint(1, 12))]
         names = ["".join(rng.choice("abé中z_") for _ in range(rng.choice([1, 5, 127, 128, 300]))) + str(i) for i in range(nf)]
         build_and_check(R, nf, rng.randint(0, 3), lc, cs, names, "random shape")
